@@ -45,6 +45,9 @@ PARTIAL = [
     "only (C08_replay_comm_partial); the pointwise join is commutative / associative up to those (C08_tjoin_*)",
     "traces of DIFFERENT shape (one peer ahead in the left branch, another in the right; folds with different numbers of "
     "iterations) and fold states are covered by the correspondence and the history-level oracle only",
+    "KNOWN FINDING pending-request-then-lens-error: a remote call emits RequestSentBy while an argument is unknown and nothing once "
+    "the argument is known and its lens fails; under an xor with a non-call right branch the later data then meet the stale call "
+    "state (TraceError incompatible states) in one delivery order and merge in the other",
     "KNOWN FINDING stream-fold-cursor-hole: with a recursive stream fold (the body appends to the folded stream) the number "
     "of fold iterations in the merged trace depends on the delivery order (one iteration, with the states under it, is lost "
     "in some orders): the property allows only the ORDER of iterations to differ",
@@ -115,6 +118,8 @@ def classify(case, failure):
     """key of the known finding this failure is an instance of, or None (= a violation)"""
     if failure.get("key") in ("states-differ", "knowledge-differs") and merge_common.recursive_stream_folds(case.get("script", "")):
         return KNOWN_KEY
+    if failure.get("key") == "order-dependent-failure" and "incompatible states: 'Call(RequestSentBy(" in failure.get("what", ""):
+        return "pending-request-then-lens-error"
     return None
 
 
